@@ -67,6 +67,7 @@ FIXED = [
  "fixed: property=C11 449d738 ARG_MAX on the NPU appended a unit dimension to the shape of its output tensor: a network output [1,H,W] was published as [1,H,W,1] (findings/FX-argmax-output-rank.C11.json)",
  "fixed: property=C03 ce780e7 SQUARED_DIFFERENCE whose first operand is the smaller (broadcast) one, e.g. a constant 1x1xWxC: int32 intermediates cloned from that operand were allocated too small and overlapped live tensors (findings/FX-squared-difference-broadcast-const.C03.json)",
  "fixed: property=C13 3a3b97c LOG / SQRT (int8 and int16 lookup tables) with a zero point that makes some dequantised input negative aborted with ValueError: math domain error (findings/FX-sqrt-table-domain-error.C13.json)",
+ "fixed: property=C13 f041534 AssertionError Allocation exceeds staging limit (scheduler.use_fast_storage_for_feature_maps) when the tensors that cannot leave fast storage alone exceed a small --arena-cache-size, e.g. RESIZE / TRANSPOSE / CONCATENATION network on ethos-u55-64 with --arena-cache-size 12957 (findings/FX-staging-limit-assertion.C13.json)",
 ]
 EXTRA = [
  dict(id="F07-pad-then-mean", property="C13", status="known",
